@@ -597,23 +597,15 @@ func blockReaches(ff *core.FnFacts, from, to, stop *ssa.BasicBlock) bool {
 	if from == to {
 		return true
 	}
-	seen := map[*ssa.BasicBlock]bool{from: true}
-	work := []*ssa.BasicBlock{from}
-	for len(work) > 0 {
-		b := work[len(work)-1]
-		work = work[:len(work)-1]
-		for _, s := range b.Succs {
-			if s == stop || seen[s] || !ff.IsLiveEdge(b, s) {
-				continue
-			}
-			if s == to {
-				return true
-			}
-			seen[s] = true
-			work = append(work, s)
-		}
+	return ff.WalkFeasible([]*ssa.BasicBlock{from}, func(a, b *ssa.BasicBlock) bool { return b == stop }, func(b *ssa.BasicBlock) bool { return b == to })
+}
+
+// edgeReaches: is `to` reachable once the edge a→b has been taken (the way of arrival counts at tests of merged values)?
+func edgeReaches(ff *core.FnFacts, a, b, to *ssa.BasicBlock) bool {
+	if b == to {
+		return true
 	}
-	return false
+	return ff.WalkFeasible([]*ssa.BasicBlock{a, b}, nil, func(x *ssa.BasicBlock) bool { return x == to })
 }
 
 // checkVersionBlindPaths: in DocumentHandler.ResolveDocument the resolution
